@@ -23,6 +23,7 @@ func init() {
 			{"C18.sole-constructor", "Node* values are built only by ArchiveDecoder.Next", 4, c18SoleConstructor},
 			{"C18.join-root", "LocalFS touches only filepath.Join(fs.Root, n.Name)", 15, c18JoinRoot},
 			{"C18.lstat-dir", "CreateDir refuses an existing non-directory (lstat) before doing anything", 2, c18LstatDir},
+			{"C18.unlink-before-create", "files, symlinks and devices are created only after what was under the name has been removed", 3, c18UnlinkBeforeCreate},
 		},
 	})
 }
@@ -410,4 +411,66 @@ func c18LstatDir(c *Ctx) {
 	c.paths += h.Paths
 	c.report("LocalFS.CreateDir:not-a-dir-is-error", fn, bad, fmt.Sprintf("%d path(s): existing non-directory -> error before any modification", h.Paths))
 	_ = types.Typ
+}
+
+// c18UnlinkBeforeCreate: open(O_CREAT|O_TRUNC), symlink and mknod act on whatever the destination
+// name refers to.  If an earlier entry of the archive planted a symlink under that name, opening
+// it follows the link and truncates, chmods and rewrites a file outside the destination.  So in
+// CreateFile, CreateSymlink and CreateDevice the creating call is dominated by an unconditional
+// removal of the same path (RemoveAll / Remove / Unlink), or the open carries O_EXCL or O_NOFOLLOW.
+func c18UnlinkBeforeCreate(c *Ctx) {
+	isCreate := func(call ssa.CallInstruction) (pathArg int, ok bool) {
+		switch callee(call) {
+		case "os.OpenFile":
+			if k, isK := call.Common().Args[1].(*ssa.Const); isK && k.Value != nil {
+				fl := k.Int64()
+				if fl&0x40 == 0 {
+					return 0, false // no O_CREATE
+				}
+				if fl&0x80 != 0 || fl&0x20000 != 0 { // O_EXCL, O_NOFOLLOW
+					return 0, false
+				}
+			}
+			return 0, true
+		case "os.Create":
+			return 0, true
+		case "os.Symlink":
+			return 1, true
+		case "syscall.Mknod", "syscall.Mkfifo", "golang.org/x/sys/unix.Mknod", "golang.org/x/sys/unix.Mkfifo":
+			return 0, true
+		}
+		return 0, false
+	}
+	isRemove := named("os.RemoveAll", "os.Remove", "syscall.Unlink", "golang.org/x/sys/unix.Unlink")
+	n := 0
+	for _, key := range []string{"LocalFS.CreateFile", "LocalFS.CreateSymlink", "LocalFS.CreateDevice"} {
+		fn := c.mustFn(key)
+		if fn == nil {
+			continue
+		}
+		found := 0
+		for _, g := range fnsDeep(fn) {
+			for _, cr := range calls(g, func(string) bool { return true }) {
+				pa, ok := isCreate(cr)
+				if !ok {
+					continue
+				}
+				found++
+				n++
+				okR := false
+				for _, g2 := range fnsDeep(fn) {
+					for _, rm := range calls(g2, isRemove) {
+						if instrDominates(rm.(ssa.Instruction), cr.(ssa.Instruction)) && sameValue(rm.Common().Args[0], cr.Common().Args[pa]) {
+							okR = true
+						}
+					}
+				}
+				c.verdict(okR, key+":"+callee(cr), cr.Pos(), "whatever is under the destination name is removed on every path before it is created",
+					"the destination is created without removing what is already under that name on every path: a symlink planted by an earlier entry is followed and a file outside the destination is truncated, rewritten and chmod-ed")
+			}
+		}
+		if found == 0 {
+			c.bad(key+":create", fn.Pos(), "no creating call found")
+		}
+	}
 }
